@@ -57,7 +57,7 @@ type stepRec struct {
 type C19Stats struct {
 	Programs, Ops, OpsOK, OpsErr, OpsPanic uint64
 	Families                               map[string]uint64
-	OpNames                                map[string]uint64
+	OpNames, OpOK                          map[string]uint64
 	Pool                                   PoolStats
 	CallerScribbles, FinalizersFired       uint64
 	FaultsFired, DenseFull, DenseRotations uint64
@@ -66,7 +66,7 @@ type C19Stats struct {
 }
 
 func newC19Stats() *C19Stats {
-	return &C19Stats{Families: map[string]uint64{}, OpNames: map[string]uint64{}, NontrivialDigests: map[uint64]struct{}{}}
+	return &C19Stats{Families: map[string]uint64{}, OpNames: map[string]uint64{}, OpOK: map[string]uint64{}, NontrivialDigests: map[uint64]struct{}{}}
 }
 
 func resetGlobals(adv bool) {
@@ -127,6 +127,7 @@ func runRef(seed uint64, cfg *C19Config, prog []Op, st *C19Stats) ([]Op, []stepR
 			switch o.St {
 			case stOK:
 				st.OpsOK++
+				st.OpOK[op.Name]++
 			case stErr:
 				st.OpsErr++
 			case stPanic:
